@@ -186,6 +186,11 @@ func Select(a, i *Term) *Term {
 	if a.Sort.V == nil {
 		panic("select on non-array " + a.S + " : " + a.Sort.Name)
 	}
+	// select(store(b, i, v), i) = v
+	if b, j, v, ok := splitStore(a.S); ok && j == i.S {
+		_ = b
+		return &Term{v, a.Sort.V}
+	}
 	return mk(a.Sort.V, "select", a, i)
 }
 
@@ -193,7 +198,48 @@ func Store(a, i, v *Term) *Term {
 	if a.Sort.V == nil {
 		panic("store on non-array " + a.S)
 	}
+	// store(store(b, i, _), i, v) = store(b, i, v)
+	if b, j, _, ok := splitStore(a.S); ok && j == i.S {
+		return mk(a.Sort, "store", &Term{b, a.Sort}, i, v)
+	}
 	return mk(a.Sort, "store", a, i, v)
+}
+
+// splitStore parses "(store A I V)" into its three arguments.
+func splitStore(s string) (a, i, v string, ok bool) {
+	if !strings.HasPrefix(s, "(store ") {
+		return
+	}
+	args := splitArgs(s[7 : len(s)-1])
+	if len(args) != 3 {
+		return
+	}
+	return args[0], args[1], args[2], true
+}
+
+func splitArgs(s string) []string {
+	var out []string
+	depth := 0
+	start := 0
+	for k := 0; k < len(s); k++ {
+		switch s[k] {
+		case '(':
+			depth++
+		case ')':
+			depth--
+		case ' ':
+			if depth == 0 {
+				if k > start {
+					out = append(out, s[start:k])
+				}
+				start = k + 1
+			}
+		}
+	}
+	if start < len(s) {
+		out = append(out, s[start:])
+	}
+	return out
 }
 
 func ConstArray(s *Sort, v *Term) *Term {
@@ -202,8 +248,51 @@ func ConstArray(s *Sort, v *Term) *Term {
 
 func Add(a, b *Term) *Term { return mk(SInt, "+", a, b) }
 func Sub(a, b *Term) *Term { return mk(SInt, "-", a, b) }
-func Le(a, b *Term) *Term  { return mk(SBool, "<=", a, b) }
-func Lt(a, b *Term) *Term  { return mk(SBool, "<", a, b) }
+func Le(a, b *Term) *Term {
+	if x, ok := litVal(a); ok {
+		if y, ok := litVal(b); ok {
+			if x <= y {
+				return TTrue
+			}
+			return TFalse
+		}
+	}
+	return mk(SBool, "<=", a, b)
+}
+func Lt(a, b *Term) *Term {
+	if x, ok := litVal(a); ok {
+		if y, ok := litVal(b); ok {
+			if x < y {
+				return TTrue
+			}
+			return TFalse
+		}
+	}
+	return mk(SBool, "<", a, b)
+}
+
+func litVal(t *Term) (int64, bool) {
+	s := t.S
+	neg := false
+	if strings.HasPrefix(s, "(- ") && strings.HasSuffix(s, ")") {
+		neg = true
+		s = s[3 : len(s)-1]
+	}
+	if len(s) == 0 || len(s) > 18 {
+		return 0, false
+	}
+	var v int64
+	for _, c := range s {
+		if c < '0' || c > '9' {
+			return 0, false
+		}
+		v = v*10 + int64(c-'0')
+	}
+	if neg {
+		v = -v
+	}
+	return v, true
+}
 
 type Bound struct {
 	Name string
@@ -258,7 +347,7 @@ func SlcArr(s *Term) *Term               { return mk(SPtr, "s_arr", s) }
 func SlcOff(s *Term) *Term               { return mk(SInt, "s_off", s) }
 func SlcLen(s *Term) *Term               { return mk(SInt, "s_len", s) }
 func SlcCap(s *Term) *Term               { return mk(SInt, "s_cap", s) }
-func SlcElemAddr(s, i *Term) *Term       { return PElem(SlcArr(s), Add(SlcOff(s), i)) }
+func SlcElemAddr(s, i *Term) *Term       { return mk(SPtr, "s_elem", s, i) }
 
 var TNilSlice = &Term{"(mk_slice Nil 0 0 0)", SSlc}
 
@@ -273,6 +362,7 @@ const preamble = `(set-option :produce-models true)
 (define-fun Fld ((p Ptr) (f Int)) Ptr (Loc (obj p) (PF (path p) f)))
 (define-fun Elem ((p Ptr) (i Int)) Ptr (Loc (obj p) (PE (path p) i)))
 (declare-datatypes ((Slice 0)) (((mk_slice (s_arr Ptr) (s_off Int) (s_len Int) (s_cap Int)))))
+(declare-fun s_elem (Slice Int) Ptr)
 (declare-datatypes ((Iface 0)) (((NilI) (MkI (i_tag Int) (i_val Int)))))
 (declare-fun str_len (Str) Int)
 (declare-fun str_cat (Str Str) Str)
@@ -283,6 +373,8 @@ const preamble = `(set-option :produce-models true)
 
 const axStrLen = `(assert (forall ((s Str)) (! (>= (str_len s) 0) :pattern ((str_len s)))))
 (assert (forall ((s Str)) (! (=> (= (str_len s) 0) (= s str_empty)) :pattern ((str_len s)))))
+`
+const axSElem = `(assert (forall ((s Slice) (i Int)) (! (= (s_elem s i) (Elem (s_arr s) (+ (s_off s) i))) :pattern ((s_elem s i)))))
 `
 const axStrCat = `(assert (forall ((a Str) (b Str)) (! (= (str_len (str_cat a b)) (+ (str_len a) (str_len b))) :pattern ((str_cat a b)))))
 (assert (forall ((a Str)) (! (= (str_cat a str_empty) a) :pattern ((str_cat a str_empty)))))
@@ -297,6 +389,9 @@ const axStrLt = `(assert (forall ((a Str)) (! (not (str_lt a a)) :pattern ((str_
 // smtHeader returns the preamble plus the axiom groups whose symbols occur in body.
 func smtHeader(body string) string {
 	h := preamble
+	if strings.Contains(body, "(s_elem ") {
+		h += axSElem
+	}
 	if strings.Contains(body, "(str_len ") {
 		h += axStrLen
 	}
